@@ -14,23 +14,25 @@
 (***************************************************************************)
 EXTENDS TrBase
 
-VARIABLES fr, acc, hand, nextk, okd, hof, areq, lastw, cof, opend
-vars == <<l, viols, fr, acc, hand, nextk, okd, hof, areq, lastw, cof, opend>>
+VARIABLES fr, acc, hand, nextk, okd, hof, areq, lastw, cof, opend,
+          dead      \* connections whose OnClose has begun: their buffers are being torn down, no accounting any more
+vars == <<l, viols, fr, acc, hand, nextk, okd, hof, areq, lastw, cof, opend, dead>>
 
 Init == /\ l = 1 /\ viols = <<>> /\ fr = Empty /\ acc = Empty /\ hand = Empty /\ nextk = Empty
-        /\ okd = {} /\ hof = Empty /\ areq = Empty /\ lastw = Empty /\ cof = Empty /\ opend = Empty
+        /\ okd = {} /\ hof = Empty /\ areq = Empty /\ lastw = Empty /\ cof = Empty /\ opend = Empty /\ dead = {}
         /\ TLCSet(1, 1) /\ TLCSet(2, <<>>)
 
+DeadNext == dead' = (IF Ev.ev = "Reset" THEN {} ELSE IF Ev.ev = "Close" THEN dead \cup {Ev.c} ELSE dead)
 Step(fr2, acc2, hand2, nk2, ok2, hof2, ar2, lw2, vs) ==
     /\ l' = l + 1 /\ fr' = fr2 /\ acc' = acc2 /\ hand' = hand2 /\ nextk' = nk2 /\ okd' = ok2
     /\ hof' = hof2 /\ areq' = ar2 /\ lastw' = lw2 /\ viols' = vs /\ Mark
-    /\ UNCHANGED <<cof, opend>>
+    /\ UNCHANGED <<cof, opend>> /\ DeadNext
 Same(vs) == Step(fr, acc, hand, nextk, okd, hof, areq, lastw, vs)
 \* steps that touch the bookkeeping of the OnOpen reply (cof: handle -> connection, opend: bytes of the
 \* reply that conn.open has not yet written or buffered)
 StepO(acc2, hand2, ok2, hof2, cof2, op2, fr2, lw2, vs) ==
     /\ l' = l + 1 /\ fr' = fr2 /\ acc' = acc2 /\ hand' = hand2 /\ nextk' = nextk /\ okd' = ok2
-    /\ hof' = hof2 /\ areq' = areq /\ lastw' = lw2 /\ cof' = cof2 /\ opend' = op2 /\ viols' = vs /\ Mark
+    /\ hof' = hof2 /\ areq' = areq /\ lastw' = lw2 /\ cof' = cof2 /\ opend' = op2 /\ viols' = vs /\ Mark /\ DeadNext
 
 WriteSites == {"el.write", "el.writev", "c.write", "c.writev", "c.openwrite", "el.flushv"}
 Acc(c) == Get(acc, c, 0)
@@ -44,7 +46,7 @@ Step1 ==
        CASE e.ev = "Reset" ->
               /\ l' = l + 1 /\ fr' = Empty /\ acc' = Empty /\ hand' = Empty /\ nextk' = Empty /\ okd' = {}
               /\ hof' = Empty /\ areq' = Empty /\ lastw' = Empty /\ cof' = Empty /\ opend' = Empty
-              /\ viols' = viols /\ Mark
+              /\ viols' = viols /\ Mark /\ DeadNext
          [] e.ev = "Open" -> StepO(acc, hand, okd, Put(hof, e.c, e.h), Put(cof, e.h, e.c), opend, fr, lastw, viols)
          [] e.ev = "Sys" /\ e.site = "c.openwrite" /\ e.h \in DOMAIN cof ->
               \* conn.open writes the OnOpen reply: what it writes is handed to the kernel, on EAGAIN the
@@ -69,12 +71,12 @@ Step1 ==
          [] e.ev = "WOp" ->
               LET a2 == Acc(e.c) + (IF e.err = "nil" THEN e.n ELSE 0)
                   v1 == Check(e.err # "nil" \/ e.n = e.len, "WriteAcceptsAll", <<e.c, e.op, e.len, e.n>>, viols)
-                  v2 == Check(e.err # "nil" \/ e.ob = a2 - Hand(e.c), "OutAccounting", <<e.c, e.op, e.ob, a2, Hand(e.c)>>, v1)
+                  v2 == Check(e.err # "nil" \/ e.c \in dead \/ e.ob = a2 - Hand(e.c), "OutAccounting", <<e.c, e.op, e.ob, a2, Hand(e.c)>>, v1)
               IN Step(fr, Put(acc, e.c, a2), hand, nextk,
                       IF e.err = "nil" THEN okd \cup {Get(lastw, e.c, <<0, 0, 0>>)} ELSE okd,
                       hof, areq, lastw, v2)
          [] e.ev = "Traffic" ->
-              Same(Check(ObOK(e.c, e.ob), "OutAccounting", <<e.c, "Traffic", e.ob, Acc(e.c), Hand(e.c)>>, viols))
+              Same(Check(e.c \in dead \/ ObOK(e.c, e.ob), "OutAccounting", <<e.c, "Traffic", e.ob, Acc(e.c), Hand(e.c)>>, viols))
          [] e.ev = "AIssue" /\ e.kind \in {"AsyncWrite", "AsyncWritev"} ->
               Step(Put(fr, <<e.c, e.w, e.k>>, e.len), acc, hand, nextk, okd, hof, Put(areq, e.a, <<e.c, e.w, e.k>>), lastw, viols)
          [] e.ev = "ACb" /\ e.a \in DOMAIN areq ->
@@ -104,5 +106,5 @@ Step1 ==
                          <<e.c, Acc(e.c), Hand(e.c)>>, viols))
          [] OTHER -> Same(viols)
 
-Next == Step1 \/ FinishWith(<<fr, acc, hand, nextk, okd, hof, areq, lastw, cof, opend>>)
+Next == Step1 \/ FinishWith(<<fr, acc, hand, nextk, okd, hof, areq, lastw, cof, opend, dead>>)
 =============================================================================
